@@ -75,15 +75,34 @@ theorem C08_closed_means_complete (c : Cfg) (hB : 0 < c.B) (hJ : 0 < c.J) (ops :
       r.1.failed = false :=
   Kanzi.Writer.closed_means_complete c hB hJ ops
 
-/-- C08 (writer): the error state is sticky: after a failed block every Write is refused with an
-error (nothing is accepted) and every Close fails; the writer never becomes closed -/
-theorem C08_failed_sticky (c : Cfg) (s : St) (h : s.failed = true) (hc : s.closed = false) (op : Op) :
-    (step c s op).1.failed = true ∧ (step c s op).1.closed = false ∧
+/-- C08 (writer), PARTIAL: the error state is sticky: after a failed block every Write is refused with
+an error (nothing is accepted) and every Close fails; the writer never becomes closed.
+PARTIAL because the statement over ALL states (hypotheses `failed` and `¬closed` only) is false: the
+state `{ init c with failed := true, finalized := true }` — which no program can produce — is closed
+successfully by `Close` (phase 1 is skipped).  Stated here with the extra hypothesis
+`s.finalized = false` (which is also preserved, making the statement inductive); the original
+statement for every REACHABLE state is `C08_failed_sticky_reachable` below.
+See `Kanzi/Proofs/Writer.lean` for the counterexample. -/
+theorem C08_failed_sticky (c : Cfg) (s : St) (h : s.failed = true) (hc : s.closed = false)
+    (hfin : s.finalized = false) (op : Op) :
+    (step c s op).1.failed = true ∧ (step c s op).1.closed = false ∧ (step c s op).1.finalized = false ∧
     (match op with
      | .write _ _ => ∃ e, (step c s op).2 = Out.wrote 0 (some e)
      | .close _ => ∃ e, (step c s op).2 = Out.closedR (some e)
      | .getWritten => True) :=
-  Kanzi.Writer.failed_sticky c s h hc op
+  Kanzi.Writer.failed_sticky_partial c s h hc hfin op
+
+/-- C08 (writer): the original sticky-error statement, for every reachable state (any program, any
+faults, any B, J): a reachable failed writer is not closed, refuses every Write with an error, fails
+every Close and never becomes closed -/
+theorem C08_failed_sticky_reachable (c : Cfg) (s : St) (hr : Reachable c s) (h : s.failed = true) (op : Op) :
+    s.closed = false ∧ (step c s op).1.failed = true ∧ (step c s op).1.closed = false ∧
+    (match op with
+     | .write _ _ => ∃ e, (step c s op).2 = Out.wrote 0 (some e)
+     | .close _ => ∃ e, (step c s op).2 = Out.closedR (some e)
+     | .getWritten => True) := by
+  obtain ⟨ops, hops⟩ := hr
+  exact Kanzi.Writer.failed_sticky_reachable c ops s hops h op
 
 /-- C08 (writer): a fault that fires is reported by the call during which it happens -/
 theorem C08_close_fault_reported (c : Cfg) (s : St) (f : Fault) (hf : f = .endMarker ∨ f = .finalFlush ∨ f = .closer)
